@@ -79,35 +79,50 @@ def claimed():
 
 
 def run(name, props=None):
+    """Apply the change to a scratch worktree of /repo (outside /repo and /verif), run the quick checks
+    against it (VERIF_REPO), remove the worktree."""
     d = os.path.join(VERIF, "seeded", name)
     patch = os.path.join(d, "patch.diff")
-    rc, o = sh("git status --short | grep -v '^??'", cwd="/repo")
-    assert not o.strip(), "/repo not clean: " + o
-    rc, o = sh("git apply %s || patch -p1 --no-backup-if-mismatch < %s" % (patch, patch), cwd="/repo")
-    if rc != 0:
-        print("patch does not apply to /repo:", o)
-        sh("git checkout -- .", cwd="/repo")
-        return None
+    meta_p = os.path.join(d, "meta.json")
+    meta = json.load(open(meta_p))
+    props = props or sorted(set([meta["property"]] + meta.get("also_run", [])))
+    scratch = "/tmp/seedrun/%s" % name
+    out = "/tmp/seedrun/out_%s" % name
+    sh("rm -rf %s %s; mkdir -p /tmp/seedrun" % (scratch, out))
+    sh("git worktree prune", cwd="/repo")
+    rc, o = sh("git worktree add -q --detach %s HEAD" % scratch, cwd="/repo")
+    assert rc == 0, o
     res = {}
     try:
-        for p in props or claimed():
+        rc, o = sh("git apply %s || patch -p1 --no-backup-if-mismatch < %s" % (patch, patch), cwd=scratch)
+        if rc != 0:
+            print("patch does not apply:", o)
+            return None
+        for p in props:
             t0 = time.time()
-            rc, o = sh("./check %s --tier quick" % p, cwd=VERIF)
+            rc, o = sh("VERIF_REPO=%s VERIF_OUT=%s ./check %s --tier quick" % (scratch, out, p), cwd=VERIF)
             viol = [l for l in o.splitlines() if l.startswith("VIOLATION")]
             obl = sorted({l.split("obligation=")[1].split()[0] for l in viol if "obligation=" in l})
-            res[p] = {"exit": rc, "obligations": obl, "wall": round(time.time() - t0, 1),
+            replayed = sorted({l.split("obligation=")[1].split()[0] for l in viol
+                               if "obligation=" in l and "no-failing-input-found" not in l})
+            res[p] = {"exit": rc, "obligations": obl, "replayed": replayed, "wall": round(time.time() - t0, 1),
                       "other": [l for l in o.splitlines() if l.startswith(("CHECKER-FAULT", "UNDECIDED"))][:3]}
     finally:
-        sh("git checkout -- .", cwd="/repo")
+        sh("git worktree remove --force %s; git worktree prune" % scratch, cwd="/repo")
+        sh("rm -rf %s %s" % (scratch, out))
     caught = {p: r["obligations"] for p, r in res.items() if r["exit"] == 1}
-    print("%-28s caught_by=%s" % (name, json.dumps(caught)))
+    print("%-45s caught_by=%s" % (name, json.dumps(caught)))
     for p, r in res.items():
         if r["exit"] not in (0, 1):
             print("   %s exit=%d %s" % (p, r["exit"], r["other"]))
-    meta_p = os.path.join(d, "meta.json")
-    meta = json.load(open(meta_p))
-    meta["caught_by"] = caught
-    meta["check_exits"] = {p: r["exit"] for p, r in res.items()}
+    prev = meta.get("caught_by", {})
+    prev.update(caught)
+    for p in props:
+        if p not in caught and p in prev:
+            del prev[p]
+    meta["caught_by"] = prev
+    meta.setdefault("check_exits", {}).update({p: r["exit"] for p, r in res.items()})
+    meta["replayed_natively"] = {p: r["replayed"] for p, r in res.items() if r["replayed"]}
     json.dump(meta, open(meta_p, "w"), indent=1)
     return res
 
